@@ -254,7 +254,9 @@ def make_synth(chk, rng, idx, kind):
         can = 273.15 + gen_double(rng, sy.p) if rng.random() < 0.8 else gen_double(rng, sy.p)
         sy.vals.append((can, gen_double(rng, sy.p), abs(gen_double(rng, sy.p)), abs(gen_double(rng, sy.p))))
     eol = rng.choice(['\n', '\n', '\r\n'])
-    text = raw_text(rng, sy.hdr + sy.rows, eol, last_eol=rng.random() < 0.9)
+    # (an empty last row is only representable with a final end-of-line: without it the file simply has
+    #  one line fewer - a generator artefact, not a reader defect)
+    text = raw_text(rng, sy.hdr + sy.rows, eol, last_eol=(rng.random() < 0.9) or sy.rows[-1] == [])
     with open(sy.path, 'w', newline='') as f:
         f.write(text)
     sy.text_lf = text.replace('\r\n', '\n')
